@@ -157,6 +157,9 @@ def rule_lying_iter(ctx):
             if rhs == amount:
                 lhs = e[2]
                 from_enum = any(x[0] == "call" and isinstance(x[1], str) and "Enumerate" in x[1] and x[1].endswith("::next") for x in walk(lhs))
+                # the same count spelled `zip(0..)`: the index component of a Zip over a range that starts at 0
+                if not from_enum and any(x[0] == "call" and isinstance(x[1], str) and "Zip" in x[1] and x[1].endswith("::next") for x in walk(lhs)):
+                    from_enum = any(x[0] == "agg" and str(x[1]).endswith("RangeFrom::RangeFrom") and isinstance(x[2], dict) and strip_casts(x[2].get("start", ("?",)))[:2] == ("const", 0) for x in walk(lhs))
                 false_t = [bb for v, bb in t["arms"] if v == 0]
                 if from_enum and false_t and is_diverging(fn, false_t[0]):
                     found = (bi, t["otherwise"])
